@@ -1,41 +1,50 @@
+// C05: interchangeable cryptographic backends agree on outputs and on accept/reject, and
+// none panics on malformed input.
+//
+//   - BN254: crypto/bn256/{cloudflare,google,gnark} called directly, plus a big.Int affine
+//     reference (refbn.go: EIP-196/197 decoding rules, curve/twist/subgroup membership, group
+//     law) and bilinearity for PairingCheck.
+//   - BLAKE2b F: fGeneric / fSSE4 / fAVX / fAVX2 (verif hook, as far as the CPU allows), the
+//     public dispatcher F, the 0x09 precompile framing, and refhash.Blake2bF (RFC 7693).
+//   - KZG: kzg4844 with UseCKZG(false) vs UseCKZG(true) (build tag ckzg).
 package main
 
 import (
-	"fmt"
-	"time"
-
-	"github.com/ethereum/go-ethereum/crypto/kzg4844"
+	"verif/lib/vrt"
 )
 
-func main() {
-	t0 := time.Now()
-	fmt.Println(kzg4844.UseCKZG(true), time.Since(t0))
-	t0 = time.Now()
-	fmt.Println(kzg4844.UseCKZG(false), time.Since(t0))
-	var blob kzg4844.Blob
-	blob[1] = 7
-	for _, ck := range []bool{false, true} {
-		kzg4844.UseCKZG(ck)
-		t0 = time.Now()
-		c, err := kzg4844.BlobToCommitment(&blob)
-		fmt.Println("commit", ck, err, time.Since(t0))
-		t0 = time.Now()
-		p, err := kzg4844.ComputeBlobProof(&blob, c)
-		fmt.Println("blobproof", ck, err, time.Since(t0))
-		t0 = time.Now()
-		err = kzg4844.VerifyBlobProof(&blob, c, p)
-		fmt.Println("verifyblob", ck, err, time.Since(t0))
-		t0 = time.Now()
-		pr, cl, err := kzg4844.ComputeProof(&blob, kzg4844.Point{31: 5})
-		fmt.Println("proof", ck, err, time.Since(t0))
-		t0 = time.Now()
-		err = kzg4844.VerifyProof(c, kzg4844.Point{31: 5}, cl, pr)
-		fmt.Println("verify", ck, err, time.Since(t0))
-		t0 = time.Now()
-		cps, err := kzg4844.ComputeCellProofs(&blob)
-		fmt.Println("cellproofs", ck, err, len(cps), time.Since(t0))
-		t0 = time.Now()
-		err = kzg4844.VerifyCellProofs([]kzg4844.Blob{blob}, []kzg4844.Commitment{c}, cps)
-		fmt.Println("verifycells", ck, err, time.Since(t0))
+func main() { vrt.Main("C05", run) }
+
+func run(r *vrt.Run) {
+	r.Rule("inputs are generated per class: BN254 G1/G2 encodings (valid multiples, infinity, coordinate >= p, off-curve, on-twist-but-outside-subgroup, random, short, long, zero coordinate), G1 add/mul operands incl. doubling, negation, infinity and scalars 0,1,r-1,r,r+1,p,2^256-1, pairing sets with a known product (bilinear identities of 2-4 pairs, broken variants, infinities, empty); BLAKE2b F with rounds 0,1,2,9-13,<2120,2^16,2^20, random/extreme h,m,t, both final flags, operands at varying 8-byte offsets; KZG genuine material for random/sparse/zero blobs and evaluation points inside/outside the domain, then single mutations (bit flips, non-canonical field elements, x not on curve, outside subgroup, flag bits, swapped/foreign proofs). signature = (primitive, input class, decision vector / outcome class)")
+
+	// ---- BN254
+	bn := &bnChecker{r: r, gen: g2Gen()}
+	if bn.selfCheck() {
+		scale := r.N(1, 30)
+		vrt.Par(900*scale, 0, bn.g1Unmarshal)
+		vrt.Par(400*scale, 0, bn.g2Unmarshal)
+		vrt.Par(500*scale, 0, bn.g1Add)
+		vrt.Par(500*scale, 0, bn.g1Mul)
+		vrt.Par(300*scale, 0, bn.pairing)
 	}
+
+	// ---- BLAKE2b F
+	bl := newBlakeChecker(r)
+	if len(bl.available) < 2 {
+		r.Inconclusive("fewer than two BLAKE2b F implementations can run on this CPU (%v)", bl.available)
+	}
+	vrt.Par(r.N(100000, 5000000), 0, bl.one)
+
+	// ---- KZG
+	kz := &kzgChecker{r: r}
+	kz.run()
+
+	for _, k := range []string{"bn_g1_unmarshal_accepted", "bn_g2_ref_not-in-subgroup", "bn_g2_ref_valid", "bn_g2_ref_not-on-curve", "bn_g2_ref_bad-encoding", "bn_pairing_true", "bn_pairing_false", "blake2b_precompile_cases", "kzg_accepted", "kzg_rejected"} {
+		r.Require(k, 20)
+	}
+	r.Require("kzg_backends_compared", 2)
+	r.Assume("BN254 reference: big.Int affine arithmetic written from EIP-196/197 (self-checked: generators on curve/twist and of order r; double-and-add vs repeated addition); pairing values have no independent reference, only N-version agreement plus bilinearity identities")
+	r.Assume("BLAKE2b reference: verif/lib/refhash.Blake2bF from RFC 7693; round counts above 2^20 are not executed")
+	r.Assume("KZG: agreement of go-eth-kzg and c-kzg-4844 (both real libraries) plus the known validity of genuine and singly-mutated inputs; no independent KZG reference")
 }
